@@ -111,12 +111,11 @@ def cfg_proj(g, namer=None):
     V = sorted({tname(x) for x in g.V})
     if len(V) != len(set(g.V)):
         raise MachineryError("terminal naming not injective")
-    S = nm(g.S)
+    S = tname(g.S) if g.S in g.V else nm(g.S)
     rules = []
     for r in g.rules:
-        if r.head in g.V:
-            raise MachineryError(f"rule head {r.head!r} is a terminal")
-        h = nm(r.head)
+        # a head that is also in V is a terminal wherever it is used (CFG.is_nonterminal): its rules are dead
+        h = tname(r.head) if r.head in g.V else nm(r.head)
         b = [tname(y) if y in g.V else nm(y) for y in r.body]
         rules.append({"w": enc_w(g.R, r.w), "h": h, "b": b})
     return {"S": S, "V": V, "rules": rules}, nm
